@@ -1746,6 +1746,19 @@ std::string expression_t::str(bool old) const
     return os.str();
 }
 
+/** The symbol of the function called by a FUN_CALL / FUN_CALL_EXT expression with callee \a callee:
+    `f(..)`, or `P.f(..)` for a function f local to the template of process P (as used in queries). */
+static symbol_t called_function_symbol(const expression_t& callee)
+{
+    if (callee.get_kind() == DOT && callee.get(0).get_type().is_process()) {
+        const auto* process = static_cast<const instance_t*>(callee.get(0).get_symbol().get_data());
+        if (process != nullptr && process->templ != nullptr &&
+            static_cast<uint32_t>(callee.get_index()) < process->templ->frame.get_size())
+            return process->templ->frame[callee.get_index()];
+    }
+    return callee.get_symbol();
+}
+
 void expression_t::collect_possible_writes(set<symbol_t>& symbols) const
 {
     function_t* fun;
@@ -1779,7 +1792,7 @@ void expression_t::collect_possible_writes(set<symbol_t>& symbols) const
     case FUN_CALL:
     case FUN_CALL_EXT:
         // Add all symbols which are changed by the function
-        symbol = get(0).get_symbol();
+        symbol = called_function_symbol(get(0));
         if ((symbol.get_type().is_function() || symbol.get_type().is_function_external()) && symbol.get_data()) {
             fun = (function_t*)symbol.get_data();
 
@@ -1812,7 +1825,7 @@ void expression_t::collect_possible_reads(set<symbol_t>& symbols, bool collectRa
 
     case FUN_CALL: {
         // Add all symbols which are used by the function
-        auto symbol = get(0).get_symbol();
+        auto symbol = called_function_symbol(get(0));
         if (auto type = symbol.get_type(); type.is_function() || type.is_function_external()) {
             if (auto* data = symbol.get_data(); data) {
                 auto fun = static_cast<function_t*>(data);
